@@ -25,6 +25,7 @@ from fractions import Fraction as F
 import numpy as np
 
 import dimod
+import dimod.decorators
 from dimod import BinaryQuadraticModel as BQM
 from dimod.higherorder.polynomial import BinaryPolynomial
 from dimod.higherorder.utils import make_quadratic
@@ -480,7 +481,7 @@ def section_poly(ctx, r, corr):
             if c == 'scale' and scale_mode and 'fixed' not in have:
                 kw1 = {}
                 if scale_mode == 'scalar':
-                    kw1['scalar'] = float(r.choice([2, 4, F(1, 2), F(1, 4), -1, -2]))
+                    kw1['scalar'] = float(r.choice([2, 4, F(1, 2), F(1, 4), -1, -2, 0, 0]))     # 0: refused since fix cca1a20 (D73)
                 else:
                     kw1['bias_range'] = float(r.choice([1, 2, F(1, 2)]))
                     if r.random() < .4:
@@ -531,6 +532,9 @@ def section_poly(ctx, r, corr):
             except Exception as e:  # noqa: every exception on a valid problem is a finding
                 free = [v for v in prob.labels if not (fixed and v in fixed)]
                 where = innermost_dimod_frame(e)
+                if (isinstance(e, ValueError) and names[-1] == 'PolyScaleComposite' and kw.get('scalar') == 0 and where == 'sample_poly'):
+                    # the documented refusal of scalar=0, raised by the PolyScale layer itself (its own frame is the innermost one)
+                    return (None, None, call, dict(refused=True, names=names, kw=kw, site='PolyScaleComposite.sample_poly'))
                 ic = f'{type(e).__name__}' + (' discard_unsatisfied=True, child response has no rows' if where == 'polymorph_response' else
                                               ' child response has no rows, free variables remain' if fixed is not None else '')
                 if fixed is not None and where != 'polymorph_response':
@@ -538,6 +542,13 @@ def section_poly(ctx, r, corr):
                 return ((ic, f'{type(e).__name__}: {e}', 'assert False  # the call above raises'), None, call, dict(site=where))
             info = dict(names=names, fixed=fixed, trunc=trunc, aux_ok=aux_ok, kw=kw, site=f'{names[-1]}.sample_poly')
             cls = prob.vartype + (' n=0' if n == 0 else '') + (' fixed_variables' if fixed is not None else '') + (' keep_penalty_variables' if aux_ok else '')
+            if kw.get('scalar') == 0 and 'PolyScaleComposite' in names and len(ss) and not np.all(np.isfinite(ss.record.energy)):
+                # not refused and the energies were divided by zero: no row carries the submitted polynomial's energy
+                i = int(np.flatnonzero(~np.isfinite(ss.record.energy))[0])
+                row = dict(zip(ss.variables, map(int, ss.record.sample[i])))
+                return (('energy', f'scalar=0 accepted: row {row} reported with energy {ss.record.energy[i]!r}, the submitted problem gives '
+                         f'{prob.energy({v: F(row[v]) for v in prob.labels})}',
+                         'import math\nassert all(math.isfinite(e) for e in ss.record.energy), list(ss.record.energy)'), ss, call, info)
             if len(ss) and ss.vartype.name != prob.vartype:
                 return (('vartype', f'sample set is {ss.vartype.name}, problem is {prob.vartype}', f'assert ss.vartype.name == {prob.vartype!r}'), ss, call, info)
             aux = []
@@ -577,9 +588,18 @@ def section_poly(ctx, r, corr):
         fail = None
         for depth in range(len(layers)):
             fail, ss, call, info = run_stack(depth)
-            if fail is not None:
+            if fail is not None or info.get('refused'):
                 break
         names = [l[0] for l in layers]
+        if fail is None and info.get('refused'):
+            # scalar=0: refused by the PolyScale layer; the model refuses the same call (`pcomp … → err value`)
+            ctx.tick('poly:scalar=0 refused (ValueError)'); ctx.tick('stack:' + '>'.join(reversed(info['names'])) + ' [refused]')
+            ctx.case((pi, base, entry, prob.vartype, n, 'scalar=0 refused', tuple(info['names'])), nontrivial=n > 0)
+            kw = info['kw']
+            if not any(len(k) == 0 for k in kw.get('ignored_terms', [])):
+                ign = '|'.join('&'.join(lab(v) for v in k) for k in kw.get('ignored_terms', []))
+                corr.add(f"pcomp {int(prob.spin)} 0 1 - ; {ign or '-'} ; {prob.wire()}", 'err value', 'PolyScaleComposite.sample_poly', call)
+            continue
         ctx.tick(f'poly:{base}:{entry}'); ctx.tick('stack:' + '>'.join(reversed(names)))
         ctx.case((pi, base, entry, prob.vartype, n, repr(sorted(info.get('kw', {}).items(), key=repr)), tuple(names)), nontrivial=n > 0,
                  sample=dict(call=call, problem=src[:300]) if pi % 50 == 9 else None)
@@ -598,6 +618,7 @@ def section_poly(ctx, r, corr):
                 ign = '|'.join('&'.join(lab(v) for v in k) if k else '' for k in kw.get('ignored_terms', []))
                 if not any(len(k) == 0 for k in kw.get('ignored_terms', [])):
                     corr.add(f"pscale {int(prob.spin)} {rat(F(kw['scalar']))} ; {ign or '-'} ; {prob.wire()}", exp, info['site'], call)
+                    corr.add(f"pcomp {int(prob.spin)} {rat(F(kw['scalar']))} 1 - ; {ign or '-'} ; {prob.wire()}", 'ok ' + exp, info['site'], call)
     # fix_variables and polymorph_response called directly, against the model
     for pi in range(ctx.scale(1000, 15000)):
         prob = PolyProblem(r, nmax=5)
@@ -1670,6 +1691,795 @@ def section_histories(ctx, r, corr):
                 break
 
 
+# ------------------------------------------------------------------ section R8: histories over DQM / CQM models and initial_states
+
+def _fl(b):
+    return repr(float(b))
+
+
+def section_histories_models(ctx, r, corr):
+    """ONE ExactDQMSolver / ExactCQMSolver / IdentitySampler-stack object called 2-4 times; between the calls the very same
+    model object (DQM, CQM) or the very same `initial_states` container (array, SampleSet, list of dicts) is mutated IN PLACE;
+    every call's rows are checked against the CURRENT input: variables, domain, energy, per-row feasibility (CQM), whole
+    search space and optimum (exact solvers), rows = the current initial states (IdentitySampler).  The history is a list of
+    source lines that are exec'd, so the repro is the history itself."""
+    pool = ['a', 'b', 'c', 'z', 0, 1, 5]
+    # ---------------------------------------------------------------- (a) ExactDQMSolver
+    for hi in range(ctx.scale(120, 2500)):
+        n = r.randint(1, 3)
+        labels = r.sample(pool, n)
+        sizes = {v: r.randint(1, 3) for v in labels}
+        lin = {v: [dy(r) for _ in range(sizes[v])] for v in labels}
+        quad = {}
+        lines = ['S = dimod.ExactDQMSolver()', 'dqm = dimod.DiscreteQuadraticModel()']
+        for v in labels:
+            lines.append(f'dqm.add_variable({sizes[v]}, label={v!r}); dqm.set_linear({v!r}, [{", ".join(_fl(b) for b in lin[v])}])')
+        for u, v in itertools.combinations(labels, 2):
+            if r.random() < .6:
+                for cu in range(sizes[u]):
+                    for cv in range(sizes[v]):
+                        if r.random() < .6:
+                            quad[(u, cu, v, cv)] = dy(r)
+                            lines.append(f'dqm.set_quadratic_case({u!r}, {cu}, {v!r}, {cv}, {_fl(quad[(u, cu, v, cv)])})')
+        ns = {'dimod': dimod, 'np': np, 'F': F}
+        try:
+            for ln in lines:
+                exec(ln, ns)
+        except Exception as e:  # noqa
+            ctx.fail('property', 'DiscreteQuadraticModel', 'history construction', f'{type(e).__name__}: {e}', repro=PRE + '\n'.join(lines) + '\n')
+            continue
+        site = 'ExactDQMSolver.sample_dqm'
+        for step in range(r.choice([2, 3, 3, 4])):
+            kind = None
+            if step:
+                kind = r.choice(['linear case', 'linear case', 'quadratic case', 'new quadratic case', 'set_linear', 'add_variable', 'relabel'])
+                free = [x for x in pool + ['q', 'w'] if x not in labels]
+                qfree = [(u, cu, v, cv) for u, v in itertools.combinations(labels, 2) for cu in range(sizes[u]) for cv in range(sizes[v])
+                         if (u, cu, v, cv) not in quad]
+                if kind == 'quadratic case' and not quad:
+                    kind = 'linear case'
+                if kind == 'new quadratic case' and not qfree:
+                    kind = 'linear case'
+                if kind in ('add_variable', 'relabel') and (not free or len(labels) >= 4):
+                    kind = 'linear case'
+                if kind == 'linear case':
+                    v = r.choice(labels); c = r.randrange(sizes[v])
+                    lin[v][c] += r.choice([F(1), F(-3, 2), F(5, 8), F(-7)])
+                    mut = f'dqm.set_linear_case({v!r}, {c}, {_fl(lin[v][c])})'
+                elif kind == 'quadratic case':
+                    k = r.choice(list(quad))
+                    quad[k] += r.choice([F(1), F(-3, 2), F(5, 8), F(-7)])
+                    mut = f'dqm.set_quadratic_case({k[0]!r}, {k[1]}, {k[2]!r}, {k[3]}, {_fl(quad[k])})'
+                elif kind == 'new quadratic case':
+                    k = r.choice(qfree)
+                    quad[k] = dy(r)
+                    mut = f'dqm.set_quadratic_case({k[0]!r}, {k[1]}, {k[2]!r}, {k[3]}, {_fl(quad[k])})'
+                elif kind == 'set_linear':
+                    v = r.choice(labels)
+                    lin[v] = [dy(r) for _ in range(sizes[v])]
+                    mut = f'dqm.set_linear({v!r}, [{", ".join(_fl(b) for b in lin[v])}])'
+                elif kind == 'add_variable':
+                    v = r.choice(free); k = r.randint(1, 3)
+                    labels.append(v); sizes[v] = k; lin[v] = [dy(r) for _ in range(k)]
+                    mut = f'dqm.add_variable({k}, label={v!r}); dqm.set_linear({v!r}, [{", ".join(_fl(b) for b in lin[v])}])'
+                else:
+                    old, newv = r.choice(labels), r.choice(free)
+                    labels[labels.index(old)] = newv
+                    sizes[newv] = sizes.pop(old); lin[newv] = lin.pop(old)
+                    quad = {tuple(newv if (i % 2 == 0 and x == old) else x for i, x in enumerate(k)): b for k, b in quad.items()}
+                    mut = f'dqm.relabel_variables({{{old!r}: {newv!r}}}, inplace=True)'
+                lines.append(mut)
+                ctx.tick(f'history(dqm): in-place {kind} before call {step + 1}')
+                try:
+                    exec(mut, ns)
+                except Exception as e:  # noqa
+                    ctx.fail('property', 'history mutation (dqm)', kind, f'{type(e).__name__}: {e}', repro=PRE + '\n'.join(lines) + '\n')
+                    break
+            lines.append('ss = S.sample_dqm(dqm)')
+            cls = 'first call' if step == 0 else f'same solver object, model mutated in place ({kind})'
+            ctx.tick(f'history(dqm): sample_dqm call {step + 1}')
+            ctx.case(('history-dqm', tuple(lines)), nontrivial=True)
+            try:
+                exec('ss = S.sample_dqm(dqm)', ns)
+            except Exception as e:  # noqa
+                ctx.fail('property', site, cls, f'{type(e).__name__}: {e}', repro=PRE + '\n'.join(lines) + '\n')
+                break
+            cur = dict(labels=list(labels), sizes=dict(sizes), lin={v: list(b) for v, b in lin.items()}, quad=dict(quad))
+
+            class P:
+                pass
+            P.labels = cur['labels']
+            P.domain = staticmethod(lambda v, cur=cur: tuple(range(cur['sizes'][v])))
+            P.energy = staticmethod(lambda x, cur=cur: sum(cur['lin'][v][int(x[v])] for v in cur['labels'])
+                                    + sum(b for (u, cu, v, cv), b in cur['quad'].items() if x[u] == cu and x[v] == cv))
+            f = predicate(ns['ss'], P, cls, exact=list(labels))
+            if f is not None:
+                ic, what, assertion = f
+                esrc = (f'LIN, QUAD = { {v: [str(b) for b in bs] for v, bs in lin.items()}!r}, { {k: str(b) for k, b in quad.items()}!r}\n'
+                        'def energy(x):\n    return sum(F(LIN[v][int(x[v])]) for v in LIN) + sum(F(b) for (u, cu, v, cv), b in QUAD.items() if x[u] == cu and x[v] == cv)\n')
+                ctx.fail('property', site, cls if ic == cls else cls + ': ' + ic, what,
+                         repro=PRE + '\n'.join(lines) + '\n' + esrc + assertion + '\n', detail=dict(history='\n'.join(lines)))
+                break
+    # ---------------------------------------------------------------- (b) ExactCQMSolver
+    for hi in range(ctx.scale(160, 3000)):
+        n = r.randint(1, 3)
+        labels = r.sample(pool, n)
+        kinds, bounds = {}, {}
+        lines = ['S = dimod.ExactCQMSolver()', 'cqm = dimod.ConstrainedQuadraticModel()', 'obj = dimod.QuadraticModel()']
+
+        def new_var(v):
+            k = r.choice('BBSII')
+            kinds[v] = k
+            if k == 'I':
+                lb = F(r.randint(-2, 1)); ub = lb + r.randint(0, 2)
+                if r.random() < .4:
+                    lb -= F(r.choice([1, 2, 3]), 4)
+                if r.random() < .4:
+                    ub += F(r.choice([1, 2, 3]), 4)
+                bounds[v] = [lb, ub]
+                return f'obj.add_variable("INTEGER", {v!r}, lower_bound={_fl(lb)}, upper_bound={_fl(ub)})'
+            return f'obj.add_variable({"BINARY" if k == "B" else "SPIN"!r}, {v!r})'
+
+        def dom(v):
+            return (0, 1) if kinds[v] == 'B' else (-1, 1) if kinds[v] == 'S' else true_int_domain(*bounds[v])
+        for v in labels:
+            lines.append(new_var(v))
+        lin = {v: dy(r) for v in labels if r.random() < .8}
+        quad = {p: dy(r) for p in itertools.combinations(labels, 2) if r.random() < .5}
+        for v in labels:
+            if kinds[v] == 'I' and r.random() < .3:
+                quad[(v, v)] = dy(r)
+        off = dy(r)
+        for v, b in lin.items():
+            lines.append(f'obj.add_linear({v!r}, {_fl(b)})')
+        for (u, v), b in quad.items():
+            lines.append(f'obj.add_quadratic({u!r}, {v!r}, {_fl(b)})')
+        lines += [f'obj.offset = {_fl(off)}', 'cqm.set_objective(obj)']
+        groups = []
+        if r.random() < .35:
+            g = [f'd{j}' for j in range(r.randint(2, 3))]
+            groups.append(g)
+            for v in g:
+                kinds[v] = 'B'
+                if r.random() < .6:
+                    lin[v] = dy(r)
+            lines.append(f'cqm.add_discrete({g!r}, label="disc")')
+            for v in g:
+                if v in lin:
+                    lines.append(f'cqm.objective.add_linear({v!r}, {_fl(lin[v])})')
+            labels = labels + g
+        cons = {}
+
+        def new_con(ci):
+            vs = r.sample(labels, r.randint(1, min(3, len(labels))))
+            coef = {v: r.randint(-2, 3) for v in vs}
+            sense, rhs = r.choice(['<=', '>=', '==']), r.randint(-2, 4)
+            cons[f'c{ci}'] = [coef, sense, rhs, 0]
+            return f'cqm.add_constraint_from_iterable({[(v, c) for v, c in coef.items()]!r}, {sense!r}, rhs={rhs}, label={"c%d" % ci!r})'
+        ncon = 0
+        for _ in range(r.choice([0, 1, 1, 2])):
+            lines.append(new_con(ncon)); ncon += 1
+        ns = {'dimod': dimod, 'np': np, 'F': F}
+        try:
+            for ln in lines:
+                exec(ln, ns)
+        except Exception as e:  # noqa
+            ctx.fail('property', 'ConstrainedQuadraticModel', 'history construction', f'{type(e).__name__}: {e}', repro=PRE + '\n'.join(lines) + '\n')
+            continue
+        site = 'ExactCQMSolver.sample_cqm'
+        for step in range(r.choice([2, 3, 3, 4])):
+            kind = None
+            if step:
+                kind = r.choice(['objective linear', 'objective linear', 'objective quadratic', 'objective offset', 'add constraint',
+                                 'remove constraint', 'constraint constant', 'constraint coefficient', 'bound', 'bound', 'add variable', 'relabel'])
+                free = [x for x in pool + ['q', 'w'] if x not in labels]
+                ints = [v for v in labels if kinds[v] == 'I']
+                plain = [v for v in labels if not any(v in g for g in groups)]
+                if kind == 'objective quadratic' and len(plain) < 2:
+                    kind = 'objective linear'
+                if kind in ('remove constraint', 'constraint constant', 'constraint coefficient') and not cons:
+                    kind = 'add constraint'
+                if kind == 'bound' and not ints:
+                    kind = 'objective linear'
+                if kind in ('add variable', 'relabel') and (not free or len(labels) >= 5):
+                    kind = 'objective offset'
+                if kind == 'objective linear':
+                    v = r.choice(labels)
+                    lin[v] = lin.get(v, F(0)) + r.choice([F(1), F(-3, 2), F(5, 8), F(-7)])
+                    mut = f'cqm.objective.set_linear({v!r}, {_fl(lin[v])})'
+                elif kind == 'objective quadratic':
+                    u, v = r.sample(plain, 2)
+                    k = (u, v) if (u, v) in quad else (v, u) if (v, u) in quad else (u, v)
+                    if k in quad and r.random() < .25:
+                        del quad[k]
+                        mut = f'cqm.objective.remove_interaction({k[0]!r}, {k[1]!r})'
+                    else:
+                        d = r.choice([F(1), F(-3, 2), F(5, 8), F(-7)])          # the objective view has no set_quadratic: add the difference
+                        quad[k] = quad.get(k, F(0)) + d
+                        mut = f'cqm.objective.add_quadratic({k[0]!r}, {k[1]!r}, {_fl(d)})'
+                elif kind == 'objective offset':
+                    off += F(3, 2)
+                    mut = f'cqm.objective.offset = {_fl(off)}'
+                elif kind == 'add constraint':
+                    mut = new_con(ncon); ncon += 1
+                elif kind == 'remove constraint':
+                    lbl = r.choice(list(cons)); del cons[lbl]
+                    mut = f'cqm.remove_constraint({lbl!r})'
+                elif kind == 'constraint constant':
+                    # `cqm.constraints[label]` is a fresh Comparison: its `rhs` cannot be set in place; the constant of the lhs can
+                    lbl = r.choice(list(cons)); cons[lbl][3] += r.choice([-2, -1, 1, 2])
+                    mut = f'cqm.constraints[{lbl!r}].lhs.offset = {cons[lbl][3]}'
+                elif kind == 'constraint coefficient':
+                    lbl = r.choice(list(cons))
+                    rest = [v for v in labels if v not in cons[lbl][0]]
+                    if rest and r.random() < .4:
+                        v = r.choice(rest); cons[lbl][0][v] = r.choice([-2, -1, 1, 2, 3])
+                        mut = f'cqm.constraints[{lbl!r}].lhs.add_linear({v!r}, {cons[lbl][0][v]})'
+                    else:
+                        v = r.choice(list(cons[lbl][0]))
+                        cons[lbl][0][v] += r.choice([-2, -1, 1, 2])
+                        mut = f'cqm.constraints[{lbl!r}].lhs.set_linear({v!r}, {cons[lbl][0][v]})'
+                elif kind == 'bound':
+                    v = r.choice(ints); lb, ub = bounds[v]
+                    lower = r.random() < .5
+                    if lower:
+                        lb = lb + r.choice([F(-1), F(-1, 2), F(1, 4), F(1)])
+                    else:
+                        ub = ub + r.choice([F(-1), F(-1, 4), F(1, 2), F(1)])
+                    if not true_int_domain(lb, ub):          # the setters require an integer between the bounds: widen instead
+                        lb, ub = (bounds[v][0] - 1, bounds[v][1]) if lower else (bounds[v][0], bounds[v][1] + 1)
+                    bounds[v] = [lb, ub]
+                    mut = f'cqm.set_lower_bound({v!r}, {_fl(lb)})' if lower else f'cqm.set_upper_bound({v!r}, {_fl(ub)})'
+                elif kind == 'add variable':
+                    v = r.choice(free)
+                    decl = new_var(v).replace('obj.add_variable(', 'cqm.add_variable(', 1)
+                    labels.append(v)
+                    lin[v] = dy(r)
+                    mut = decl + f'; cqm.objective.add_linear({v!r}, {_fl(lin[v])})'
+                else:
+                    old, newv = r.choice(plain or labels), r.choice(free)
+                    if any(old in g for g in groups):
+                        kind = 'objective offset'; off += F(3, 2); mut = f'cqm.objective.offset = {_fl(off)}'
+                    else:
+                        labels[labels.index(old)] = newv
+                        kinds[newv] = kinds.pop(old)
+                        if old in bounds:
+                            bounds[newv] = bounds.pop(old)
+                        if old in lin:
+                            lin[newv] = lin.pop(old)
+                        quad = {tuple(newv if x == old else x for x in k): b for k, b in quad.items()}
+                        for c in cons.values():
+                            if old in c[0]:
+                                c[0] = {(newv if x == old else x): b for x, b in c[0].items()}
+                        mut = f'cqm.relabel_variables({{{old!r}: {newv!r}}}, inplace=True)'
+                lines.append(mut)
+                ctx.tick(f'history(cqm): in-place {kind} before call {step + 1}')
+                try:
+                    exec(mut, ns)
+                except Exception as e:  # noqa
+                    ctx.fail('property', 'history mutation (cqm)', kind, f'{type(e).__name__}: {e}', repro=PRE + '\n'.join(lines) + '\n')
+                    break
+            lines.append('ss = S.sample_cqm(cqm)')
+            cls = 'first call' if step == 0 else f'same solver object, model mutated in place ({kind})'
+            ctx.tick(f'history(cqm): sample_cqm call {step + 1}')
+            ctx.case(('history-cqm', tuple(lines)), nontrivial=True)
+            try:
+                exec('ss = S.sample_cqm(cqm)', ns)
+            except Exception as e:  # noqa
+                ctx.fail('property', site, cls, f'{type(e).__name__}: {e}', repro=PRE + '\n'.join(lines) + '\n')
+                break
+            ss = ns['ss']
+            cur = dict(labels=list(labels), doms={v: dom(v) for v in labels}, lin=dict(lin), quad=dict(quad), off=off,
+                       cons=[(dict(c[0]), c[1], c[2] - c[3]) for c in cons.values()])
+
+            class P:
+                pass
+            P.labels = cur['labels']
+            P.domain = staticmethod(lambda v, cur=cur: cur['doms'][v])
+            P.energy = staticmethod(lambda x, cur=cur: cur['off'] + sum(b * x[v] for v, b in cur['lin'].items())
+                                    + sum(b * x[u] * x[v] for (u, v), b in cur['quad'].items()))
+            esrc = (f'LIN, QUAD, OFF, CONS = { {v: str(b) for v, b in lin.items()}!r}, { {k: str(b) for k, b in quad.items()}!r}, {str(off)!r}, {cur["cons"]!r}\n'
+                    'def energy(x):\n    return F(OFF) + sum(F(b) * x[v] for v, b in LIN.items()) + sum(F(b) * x[u] * x[v] for (u, v), b in QUAD.items())\n'
+                    'def feasible(x):\n    import operator as o\n    return all({"<=": o.le, ">=": o.ge, "==": o.eq}[s](sum(c * x[v] for v, c in coef.items()), rhs) for coef, s, rhs in CONS)\n')
+
+            def report(ic, what, assertion):
+                ctx.fail('property', site, cls if ic == cls else cls + ': ' + ic, what,
+                         repro=PRE + '\n'.join(lines) + '\n' + esrc + assertion + '\n', detail=dict(history='\n'.join(lines)))
+            f = predicate(ss, P, cls)
+            if f is not None:
+                report(*f)
+                break
+            # search space: product of the current domains, discrete groups one-hot, each assignment exactly once
+            dvars = [v for g in groups for v in g]
+            other = [v for v in labels if v not in dvars]
+            want = []
+            for hot in itertools.product(*[range(len(g)) for g in groups]):
+                d = {v: int(j == h) for g, h in zip(groups, hot) for j, v in enumerate(g)}
+                for vals in itertools.product(*[cur['doms'][v] for v in other]):
+                    x = dict(d); x.update(zip(other, vals))
+                    want.append(tuple(x[v] for v in labels))
+            rows = rows_of(ss)
+            got = [tuple(int(x[v]) for v in labels) for x, _ in rows]
+            if sorted(got) != sorted(want):
+                report('enumeration', f'{len(got)} rows ({len(set(got))} distinct), the current search space has {len(want)} assignments',
+                       f'assert len(ss) == {len(want)} == len(ss.aggregate()), len(ss)')
+                break
+
+            def feasible(x):
+                for coef, sense, rhs in cur['cons']:
+                    a = sum(c * x[v] for v, c in coef.items())
+                    if not (a <= rhs if sense == '<=' else a >= rhs if sense == '>=' else a == rhs):
+                        return False
+                return True
+            bad = None
+            for (x, e), fe in zip(rows, ss.record.is_feasible):
+                if bool(fe) != feasible(x):
+                    bad = (x, bool(fe))
+                    break
+            if bad is not None:
+                report('feasibility', f'row { {v: int(a) for v, a in bad[0].items()} } reported is_feasible={bad[1]}, the current constraints say {not bad[1]}',
+                       'for s, fe in zip(ss.samples(sorted_by=None), ss.record.is_feasible):\n    assert bool(fe) == feasible({k: int(v) for k, v in s.items()}), (dict(s), fe)')
+                break
+            feas = [P.energy({v: F(a) for v, a in zip(labels, t)}) for t in want if feasible(dict(zip(labels, t)))]
+            rep = [e for (x, e), fe in zip(rows, ss.record.is_feasible) if fe]
+            if (min(feas) if feas else None) != (min(rep) if rep else None):
+                report('optimum', f'best feasible energy reported {min(rep) if rep else None}, true {min(feas) if feas else None}', 'assert False')
+                break
+    # ---------------------------------------------------------------- (c) initial_states containers mutated in place
+    stacks = [('dimod.IdentitySampler()', None), ('dimod.IdentitySampler()', None),
+              ('dimod.TrackingComposite(dimod.IdentitySampler())', None),
+              ('dimod.TruncateComposite(dimod.IdentitySampler(), 2, sorted_by=None)', 2),
+              ('dimod.StructureComposite(dimod.IdentitySampler(), NODES, EDGES)', None)]
+    for hi in range(ctx.scale(260, 4000)):
+        stack_src, trunc = r.choice(stacks)
+        n = r.randint(1, 4)
+        labels = r.sample(pool, n)
+        spin = r.random() < .5
+        lin = {v: dy(r) for v in labels}
+        quad = {p: dy(r) for p in itertools.combinations(labels, 2) if r.random() < .6}
+        off = dy(r)
+        m = r.randint(1, 3)
+        form = r.choice(['array', 'array', 'array-other-vartype', 'sampleset', 'dicts', 'int64 array'])
+        sdom = (-1, 1) if spin else (0, 1)
+        if form == 'array-other-vartype':
+            sdom = (0, 1) if spin else (-1, 1)
+        order = labels[:]; r.shuffle(order)
+        states = [[r.choice(sdom) for _ in order] for _ in range(m)]
+        gen = r.choice(['none', 'tile', 'tile'])
+        nr = None if gen == 'none' else r.choice([None, r.randint(1, 5)])
+        entry = r.choice(['sample', 'sample', 'sample_ising', 'sample_qubo'])
+        if entry == 'sample_ising':
+            spin = True
+        elif entry == 'sample_qubo':
+            spin = False
+        if entry != 'sample':
+            off = F(0)
+            if form == 'array-other-vartype':
+                form = 'array'
+            sdom = (-1, 1) if spin else (0, 1)
+            states = [[r.choice(sdom) for _ in order] for _ in range(m)]
+        ns = {'dimod': dimod, 'np': np, 'F': F, 'NODES': pool + ['q', 'w']}
+        lines = [f'NODES = {ns["NODES"]!r}', 'EDGES = [(u, v) for i, u in enumerate(NODES) for v in NODES[i + 1:]]', f'S = {stack_src}']
+        vt = 'SPIN' if spin else 'BINARY'
+        if entry == 'sample':
+            lines.append(f'bqm = dimod.BinaryQuadraticModel({ {v: float(b) for v, b in lin.items()}!r}, { {k: float(b) for k, b in quad.items()}!r}, {float(off)!r}, {vt!r})')
+            head = 'S.sample(bqm'
+        elif entry == 'sample_ising':
+            lines += [f'h = { {v: float(b) for v, b in lin.items()}!r}', f'J = { {k: float(b) for k, b in quad.items()}!r}']
+            head = 'S.sample_ising(h, J'
+        else:
+            lines.append(f'Q = { {**{(v, v): float(b) for v, b in lin.items()}, **{k: float(b) for k, b in quad.items()}}!r}')
+            head = 'S.sample_qubo(Q'
+        if form in ('array', 'array-other-vartype'):
+            lines.append(f'ARR = np.array({states!r}, dtype=np.int8); INIT = (ARR, {order!r})')
+        elif form == 'int64 array':
+            lines.append(f'ARR = np.array({states!r}, dtype=np.int64); INIT = (ARR, {order!r})')
+        elif form == 'sampleset':
+            svt = vt
+            lines.append(f'INIT = dimod.SampleSet.from_samples((np.array({states!r}, dtype=np.int8), {order!r}), energy=[0] * {m}, vartype={svt!r}); ARR = INIT.record.sample')
+        else:
+            lines.append(f'INIT = {[dict(zip(order, row)) for row in states]!r}')
+        call = head + f', initial_states=INIT, initial_states_generator={gen!r}' + (f', num_reads={nr}' if nr is not None else '') + ')'
+        try:
+            for ln in lines:
+                exec(ln, ns)
+        except Exception as e:  # noqa
+            ctx.fail('property', stack_src, 'history construction', f'{type(e).__name__}: {e}', repro=PRE + '\n'.join(lines) + '\n')
+            continue
+        # column order of ARR for a SampleSet is the SampleSet's own (sorted) order
+        cols = list(ns['INIT'].variables) if form == 'sampleset' else order
+        if form == 'sampleset':
+            states = [[row[order.index(v)] for v in cols] for row in states]
+        site = stack_src.split('(')[0].replace('dimod.', '') + '.' + entry
+        for step in range(r.choice([2, 3, 3, 4])):
+            kind = None
+            if step:
+                kind = r.choice(['state value', 'state value', 'state row', 'bias'])
+                if kind == 'state value':
+                    i, j = r.randrange(m), r.randrange(n)
+                    states[i][j] = [x for x in sdom if x != states[i][j]][0]
+                    mut = f'INIT[{i}][{cols[j]!r}] = {states[i][j]}' if form == 'dicts' else f'ARR[{i}, {j}] = {states[i][j]}'
+                elif kind == 'state row':
+                    i = r.randrange(m)
+                    states[i] = [r.choice(sdom) for _ in cols]
+                    mut = (f'INIT[{i}].update({dict(zip(cols, states[i]))!r})' if form == 'dicts' else f'ARR[{i}, :] = {states[i]!r}')
+                else:
+                    v = r.choice(labels)
+                    lin[v] += r.choice([F(1), F(-3, 2), F(5, 8), F(-7)])
+                    mut = {'sample': f'bqm.set_linear({v!r}, {_fl(lin[v])})', 'sample_ising': f'h[{v!r}] = {_fl(lin[v])}',
+                           'sample_qubo': f'Q[({v!r}, {v!r})] = {_fl(lin[v])}'}[entry]
+                lines.append(mut)
+                ctx.tick(f'history(initial_states): in-place {kind} before call {step + 1}')
+                try:
+                    exec(mut, ns)
+                except Exception as e:  # noqa
+                    ctx.fail('property', 'history mutation (initial_states)', f'{form}: {kind}', f'{type(e).__name__}: {e}', repro=PRE + '\n'.join(lines) + '\n')
+                    break
+            lines.append('ss = ' + call)
+            cls = f'initial_states as {form}: ' + ('first call' if step == 0 else f'same sampler object, input mutated in place ({kind})')
+            ctx.tick(f'history(initial_states): {form} call {step + 1}'); ctx.tick(f'history(initial_states): {entry} generator={gen}' + (' num_reads' if nr is not None else ''))
+            ctx.case(('history-init', stack_src, tuple(lines)), nontrivial=True)
+            try:
+                exec('ss = ' + call, ns)
+            except Exception as e:  # noqa
+                ctx.fail('property', site, cls, f'{type(e).__name__}: {e}', repro=PRE + '\n'.join(lines) + '\n')
+                break
+            ss = ns['ss']
+            prob = _HistProb(labels, lin, quad, off, spin)
+            f = predicate(ss, prob, cls)
+            if f is not None:
+                ic, what, assertion = f
+                ctx.fail('property', site, cls if ic == cls else cls + ': ' + ic, what,
+                         repro=PRE + '\n'.join(lines) + '\n' + _hist_energy_src(prob) + assertion + '\n', detail=dict(history='\n'.join(lines)))
+                break
+            # the rows are the CURRENT initial states (converted to the problem's vartype), tiled / truncated to num_reads
+            conv = (lambda x: x)
+            if form == 'array-other-vartype':
+                conv = (lambda x: 2 * x - 1) if spin else (lambda x: (x + 1) // 2)
+            given = [tuple(conv(x) for x in row) for row in states]
+            # an all-ones array has no vartype of its own (infer_vartype -> None): taken as the problem's vartype, no conversion
+            if form == 'array-other-vartype' and all(x == 1 for row in states for x in row):
+                given = [tuple(row) for row in states]
+            total = nr if nr is not None else m
+            wantrows = [given[i % m] for i in range(total)] if total > m else given[:total]
+            if trunc is not None:
+                wantrows = wantrows[:trunc]
+            gotrows = [tuple(int(x[v]) for v in cols) for x, _ in rows_of(ss)]
+            if gotrows != wantrows:
+                ctx.fail('property', site, cls + ': rows', f'rows {gotrows} over {cols!r}, the current initial states give {wantrows}',
+                         repro=PRE + '\n'.join(lines) + f'\ngot = [tuple(int(s[v]) for v in {cols!r}) for s in ss.samples(sorted_by=None)]\nassert got == {wantrows!r}, got\n',
+                         detail=dict(history='\n'.join(lines)))
+                break
+
+
+class _IndexLabelled(dimod.Sampler):
+    """a sampler that needs index labels: `sample` wrapped by `dimod.decorators.bqm_index_labels`"""
+    properties = None
+    parameters = None
+
+    def __init__(self):
+        self.properties, self.parameters = {}, {}
+
+    @dimod.decorators.bqm_index_labels
+    def sample(self, bqm, **kw):
+        assert list(bqm.variables) == list(range(bqm.num_variables)), list(bqm.variables)
+        return dimod.ExactSolver().sample(bqm)
+
+
+def section_tracking_and_index(ctx, r, corr):
+    """(d) TrackingComposite's log: ONE composite called 2-4 times (sample / sample_ising / sample_qubo, copy False/True), the
+    input mutated in place between the calls: `output` after each call is the returned answer (rows, energies of the CURRENT
+    problem), `outputs` grows by one per call and every EARLIER logged output still carries the energies of the problem of
+    ITS call, `clear()` empties both logs, `input` / `output` before any call raise ValueError.
+    (e) a sampler decorated with `bqm_index_labels` through all three entry points: rows over the problem's own labels."""
+    pool = ['a', 'b', 'c', 'z', 0, 1, 5, ('t', 1)]
+    for hi in range(ctx.scale(150, 2500)):
+        copy = r.random() < .5
+        entry = r.choice(['sample', 'sample_ising', 'sample_qubo'])
+        n = r.randint(1, 4)
+        labels = r.sample(pool, n)
+        spin = entry == 'sample_ising' or (entry == 'sample' and r.random() < .5)
+        lin = {v: dy(r) for v in labels}
+        quad = {p: dy(r) for p in itertools.combinations(labels, 2) if r.random() < .6}
+        off = dy(r) if entry == 'sample' else F(0)
+        lines = [f'S = dimod.TrackingComposite(dimod.ExactSolver(), copy={copy})']
+        if entry == 'sample':
+            lines.append(f'bqm = dimod.BinaryQuadraticModel({ {v: float(b) for v, b in lin.items()}!r}, { {k: float(b) for k, b in quad.items()}!r}, {float(off)!r}, {"SPIN" if spin else "BINARY"!r})')
+            call = 'S.sample(bqm)'
+        elif entry == 'sample_ising':
+            lines += [f'h = { {v: float(b) for v, b in lin.items()}!r}', f'J = { {k: float(b) for k, b in quad.items()}!r}']
+            call = 'S.sample_ising(h, J)'
+        else:
+            lines.append(f'Q = { {**{(v, v): float(b) for v, b in lin.items()}, **{k: float(b) for k, b in quad.items()}}!r}')
+            call = 'S.sample_qubo(Q)'
+        ns = {'dimod': dimod, 'np': np, 'F': F}
+        for ln in lines:
+            exec(ln, ns)
+        S = ns['S']
+        site = f'TrackingComposite.{entry}'
+        for acc in ('input', 'output'):
+            try:
+                getattr(S, acc)
+                ctx.fail('property', f'TrackingComposite.{acc}', 'before any call', 'no ValueError', repro=PRE + '\n'.join(lines) + f'\nS.{acc}\n')
+            except ValueError:
+                pass
+        snapshots = []
+        ok = True
+        nsteps = r.choice([2, 3, 4])
+        for step in range(nsteps):
+            kind = None
+            if step:
+                kind = 'value'
+                v = r.choice(labels)
+                lin[v] += r.choice([F(1), F(-3, 2), F(5, 8), F(-7)])
+                mut = {'sample': f'bqm.set_linear({v!r}, {_fl(lin[v])})', 'sample_ising': f'h[{v!r}] = {_fl(lin[v])}',
+                       'sample_qubo': f'Q[({v!r}, {v!r})] = {_fl(lin[v])}'}[entry]
+                lines.append(mut); exec(mut, ns)
+            lines.append('ss = ' + call)
+            cls = f'copy={copy}: ' + ('first call' if step == 0 else 'same composite object, input mutated in place (value)')
+            ctx.tick(f'tracking log: {entry} copy={copy} call {step + 1}')
+            ctx.case(('tracking-log', tuple(lines)), nontrivial=True)
+            try:
+                exec('ss = ' + call, ns)
+            except Exception as e:  # noqa
+                ctx.fail('property', site, cls, f'{type(e).__name__}: {e}', repro=PRE + '\n'.join(lines) + '\n'); ok = False
+                break
+            prob = _HistProb(labels, lin, quad, off, spin)
+            snapshots.append(prob)
+            what = None
+            if len(S.outputs) != step + 1 or len(S.inputs) != step + 1:
+                what = f'{len(S.inputs)} inputs / {len(S.outputs)} outputs logged after {step + 1} calls'
+            else:
+                for j, (p_j, out_j) in enumerate(zip(snapshots, S.outputs)):
+                    f = predicate(out_j, p_j, cls, exact=list(labels))
+                    if f is not None:
+                        what = f'logged output of call {j + 1} (read after call {step + 1}): {f[1]}'
+                        break
+                if what is None and _rows_exp(rows_of(S.output)) != _rows_exp(rows_of(ns['ss'])):
+                    what = 'S.output differs from the returned sample set'
+                if what is None and copy and S.output is ns['ss']:
+                    what = 'copy=True but the logged output is the returned object'
+                if what is None:
+                    # the logged input is the submitted problem (of that call when copied, the live object otherwise)
+                    inp = S.input
+                    if entry == 'sample':
+                        got = {v: fr(b) for v, b in inp['bqm'].linear.items()}
+                    elif entry == 'sample_ising':
+                        got = {v: fr(b) for v, b in inp['h'].items()}
+                    else:
+                        got = {v: fr(inp['Q'][(v, v)]) for v in labels}
+                    if got != lin:
+                        what = f'S.input holds linear biases {got}, submitted {lin}'
+            if what is not None:
+                ctx.fail('property', site, cls + ': log', what, repro=PRE + '\n'.join(lines) + '\n' + _hist_energy_src(prob) +
+                         'for s, e in zip(S.output.samples(sorted_by=None), S.output.record.energy):\n    assert F(float(e)) == energy({k: F(int(v)) for k, v in s.items()}), (dict(s), e)\n'
+                         f'assert len(S.outputs) == {step + 1} == len(S.inputs)\n', detail=dict(history='\n'.join(lines)))
+                ok = False
+                break
+        if ok:
+            # the whole history against the model: one TrackingComposite folded over the submitted problems
+            corr.add(f"track {entry.replace('sample_', '')} {int(spin)} ; " + ' ; '.join(wire_bqm(p_j) for p_j in snapshots),
+                     '#'.join([str(len(S.outputs))] + [_rows_exp(rows_of(o)) for o in S.outputs] + [_rows_exp(rows_of(S.output))]),
+                     'TrackingComposite log', '\n'.join(lines))
+        if ok and r.random() < .5:
+            S.clear()
+            ctx.tick('tracking log: clear')
+            if S.inputs or S.outputs:
+                ctx.fail('property', 'TrackingComposite.clear', f'copy={copy}', f'{len(S.inputs)} inputs / {len(S.outputs)} outputs left',
+                         repro=PRE + '\n'.join(lines) + '\nS.clear()\nassert not S.inputs and not S.outputs\n')
+    # ---- (e) bqm_index_labels
+    for pi in range(ctx.scale(200, 3000)):
+        prob = BqmProblem(r, nmax=4)
+        entry = r.choice(['sample', 'sample_ising', 'sample_qubo'])
+        src = prob.src()
+        S = _IndexLabelled()
+        pre = ('class S(dimod.Sampler):\n    properties = {}\n    parameters = {}\n    @dimod.decorators.bqm_index_labels\n'
+               '    def sample(self, bqm, **kw):\n        assert list(bqm.variables) == list(range(bqm.num_variables))\n        return dimod.ExactSolver().sample(bqm)\n')
+        if entry == 'sample':
+            call = 'S().sample(BQM)'
+            go = lambda: S.sample(prob.bqm())  # noqa: E731
+        elif entry == 'sample_ising':
+            prob.spin = True; prob.off = F(0); src = prob.src()
+            h = {v: float(b) for v, b in prob.lin.items()}; J = {k: float(b) for k, b in prob.quad.items()}
+            call = f'S().sample_ising({h!r}, {J!r})'
+            go = lambda: S.sample_ising(h, J)  # noqa: E731
+        else:
+            prob.spin = False; prob.off = F(0); src = prob.src()
+            Q = {**{(v, v): float(b) for v, b in prob.lin.items()}, **{k: float(b) for k, b in prob.quad.items()}}
+            call = f'S().sample_qubo({Q!r})'
+            go = lambda: S.sample_qubo(Q)  # noqa: E731
+        ctx.case(('index-labels', pi, entry, prob.vartype, tuple(prob.labels)), nontrivial=len(prob.labels) > 0); ctx.tick(f'bqm_index_labels:{entry}')
+        try:
+            ss = go()
+        except Exception as e:  # noqa
+            ctx.fail('property', 'bqm_index_labels', f'{entry} {type(e).__name__}', f'{type(e).__name__}: {e}', repro=PRE + pre + src + call + '\n')
+            continue
+        validate(ctx, ss, prob, 'bqm_index_labels', f'{entry} {prob.vartype}', pre + src, call, exact=prob.labels if prob.labels else None)
+
+
+def section_hoc_initial_state_history(ctx, r, corr):
+    """ONE HigherOrderComposite(child taking `initial_state`) called 2-3 times; between the calls the very same `initial_state`
+    dict (a value flipped) or the very same polynomial (a term value) is mutated in place: the one returned row is the CURRENT
+    initial state with the CURRENT polynomial's energy, penalties satisfied."""
+    import inspect
+    child_src = inspect.getsource(InitChild)
+    pool = ['a', 'b', 'c', 'z', 0, 1, 5]
+    for hi in range(ctx.scale(120, 2000)):
+        n = r.randint(2, 4)
+        labels = r.sample(pool, n)
+        spin = r.random() < .5
+        dom = (-1, 1) if spin else (0, 1)
+        terms = {(v,): dy(r) for v in labels if r.random() < .8}
+        for k in (2, 3):
+            for t in itertools.combinations(labels, k):
+                if r.random() < .5:
+                    terms[t] = dy(r)
+        for v in labels:
+            if not any(v in t for t in terms):
+                terms[(v,)] = F(1)
+        init = {v: r.choice(dom) for v in labels}
+        strength = float(r.choice([1, 2, F(1, 2), 4]))
+        keep = r.random() < .5
+        lines = ['S = dimod.HigherOrderComposite(InitChild())',
+                 f'poly = BinaryPolynomial({ {t: float(b) for t, b in terms.items()}!r}, {"SPIN" if spin else "BINARY"!r})',
+                 f'INIT = {init!r}']
+        call = f'S.sample_poly(poly, initial_state=INIT, penalty_strength={strength!r}, keep_penalty_variables={keep})'
+        ns = {'dimod': dimod, 'np': np, 'F': F, 'BinaryPolynomial': BinaryPolynomial, 'InitChild': InitChild}
+        for ln in lines:
+            exec(ln, ns)
+        for step in range(r.choice([2, 3, 3])):
+            kind = None
+            if step:
+                kind = r.choice(['initial_state value', 'initial_state value', 'term value'])
+                if kind == 'term value':
+                    t = r.choice(list(terms))
+                    terms[t] += r.choice([F(1), F(-3, 2), F(5, 8), F(-7)])
+                    mut = f'poly[{t!r}] = {_fl(terms[t])}'
+                else:
+                    v = r.choice(labels)
+                    init[v] = [x for x in dom if x != init[v]][0]
+                    mut = f'INIT[{v!r}] = {init[v]}'
+                lines.append(mut); exec(mut, ns)
+                ctx.tick(f'history(hoc initial_state): in-place {kind} before call {step + 1}')
+            lines.append('ss = ' + call)
+            cls = 'initial_state: ' + ('first call' if step == 0 else f'same composite object, input mutated in place ({kind})')
+            ctx.case(('history-hoc-init', tuple(lines)), nontrivial=True); ctx.tick(f'history(hoc initial_state): call {step + 1}')
+            site = 'HigherOrderComposite.sample_poly'
+            repro_head = PRE + child_src + '\n' + '\n'.join(lines) + '\n'
+            try:
+                exec('ss = ' + call, ns)
+            except Exception as e:  # noqa
+                ctx.fail('property', site, cls, f'{type(e).__name__}: {e}', repro=repro_head)
+                break
+            ss = ns['ss']
+
+            class P:
+                pass
+            cur = dict(terms)
+            P.labels = list(labels)
+            P.domain = staticmethod(lambda v: dom)
+
+            def energy(x, cur=cur):
+                tot = F(0)
+                for t, b in cur.items():
+                    pr = b
+                    for v in t:
+                        pr *= x[v]
+                    tot += pr
+                return tot
+            P.energy = staticmethod(energy)
+            aux = [v for v in ss.variables if v not in labels] if keep else []
+            f = predicate(ss, P, cls, aux=aux, fixed={v: F(x) for v, x in init.items()})
+            if f is None and (len(ss) != 1 or not all(ss.record.penalty_satisfaction)):
+                f = (cls + ': rows', f'{len(ss)} rows / penalty flags {list(ss.record.penalty_satisfaction)}', 'assert len(ss) == 1 and all(ss.record.penalty_satisfaction)')
+            if f is not None:
+                ic, what, assertion = f
+                ctx.fail('property', site, cls if ic == cls else cls + ': ' + ic, what,
+                         repro=repro_head + f'TERMS = { {t: str(b) for t, b in terms.items()}!r}\nimport math\n'
+                         'def energy(x):\n    return sum(F(b) * math.prod(x[v] for v in t) for t, b in TERMS.items())\n' + assertion + '\n',
+                         detail=dict(history='\n'.join(lines)))
+                break
+
+
+def section_pcomp(ctx, r, corr):
+    """PolyScaleComposite.sample_poly over the whole `scalar` axis (None, non-zero, and every spelling of zero: 0, 0.0, -0.0,
+    False, numpy zeros) x ignored_terms x entry points: refused with ValueError exactly for a zero scalar — then the child is
+    never called — otherwise every row carries the submitted polynomial's energy; outcome and rows against the total model
+    (`pcomp` → polyScaleCompositeFull)."""
+    zeros = [('0', 0), ('0.0', 0.0), ('-0.0', -0.0), ('False', False), ('np.float64(0)', np.float64(0)), ('np.int8(0)', np.int8(0))]
+    nonzero = [2, 4, F(1, 2), F(1, 4), -1, -2, F(-1, 2)]
+
+    class Counting(dimod.PolySampler):
+        parameters = None
+        properties = None
+
+        def __init__(self):
+            self.parameters, self.properties, self.calls = {}, {}, 0
+
+        def sample_poly(self, poly, **kw):
+            self.calls += 1
+            return dimod.ExactPolySolver().sample_poly(poly)
+    for pi in range(ctx.scale(400, 6000)):
+        prob = PolyProblem(r, pow2=True)
+        n = len(prob.labels)
+        src = prob.src()
+        mode = r.choice(['zero', 'zero', 'nonzero', 'nonzero', 'none'])
+        keys = [k for k in prob.terms if len(k) > 0]
+        ign = r.sample(keys, r.randint(1, min(2, len(keys)))) if keys and r.random() < .4 else []
+        kw, kwsrc = {}, []
+        if mode == 'zero':
+            ztxt, z = r.choice(zeros)
+            kw['scalar'] = z; kwsrc.append(f'scalar={ztxt}'); sc = '0'
+        elif mode == 'nonzero':
+            q = r.choice(nonzero)
+            kw['scalar'] = float(q); kwsrc.append(f'scalar={float(q)!r}'); sc = rat(F(q))
+        else:
+            sc = '-'
+        if ign:
+            kw['ignored_terms'] = [tuple(k) for k in ign]; kwsrc.append(f'ignored_terms={kw["ignored_terms"]!r}')
+        entry = r.choice(['sample_poly', 'sample_poly', 'sample_hising', 'sample_hubo'])
+        if mode == 'none' or frozenset() in prob.terms and entry == 'sample_hising':
+            entry = 'sample_poly'
+        if entry == 'sample_hising' and not prob.spin or entry == 'sample_hubo' and prob.spin:
+            entry = 'sample_poly'
+        child = Counting()
+        S = dimod.PolyScaleComposite(child)
+        kws = ''.join(', ' + t for t in kwsrc)
+        if entry == 'sample_poly':
+            call = f'dimod.PolyScaleComposite(dimod.ExactPolySolver()).sample_poly(POLY{kws})'
+            go = lambda: S.sample_poly(prob.poly(), **kw)  # noqa: E731
+        elif entry == 'sample_hising':
+            h = {next(iter(k)): float(b) for k, b in prob.terms.items() if len(k) == 1}
+            J = {tuple(k): float(b) for k, b in prob.terms.items() if len(k) > 1}
+            call = f'dimod.PolyScaleComposite(dimod.ExactPolySolver()).sample_hising({h!r}, {J!r}{kws})'
+            go = lambda: S.sample_hising(h, J, **kw)  # noqa: E731
+        else:
+            H = {tuple(k): float(b) for k, b in prob.terms.items()}
+            call = f'dimod.PolyScaleComposite(dimod.ExactPolySolver()).sample_hubo({H!r}{kws})'
+            go = lambda: S.sample_hubo(H, **kw)  # noqa: E731
+        site = 'PolyScaleComposite.sample_poly'
+        ctx.case(('pcomp', pi, n, mode, entry, repr(kwsrc)), nontrivial=n > 0); ctx.tick(f'r8:pcomp {mode}' + (' ignored' if ign else '') + f' {entry}')
+        import warnings
+        try:
+            with warnings.catch_warnings():
+                warnings.simplefilter('ignore')
+                ss = go()
+            got = 'ok'
+        except ValueError as e:
+            ss, got = None, 'err value'
+            if mode != 'zero' or innermost_dimod_frame(e) != 'sample_poly':
+                ctx.fail('property', site, f'scalar {mode} ValueError', f'{call}: ValueError: {e}', repro=PRE + src + call + '\n')
+                continue
+        except Exception as e:  # noqa
+            ctx.fail('property', site, f'scalar {mode} {type(e).__name__}', f'{call}: {type(e).__name__}: {e}', repro=PRE + src + call + '\n')
+            continue
+        if mode == 'zero':
+            if ss is None:
+                ctx.tick('r8:pcomp zero refused')
+                if child.calls:
+                    ctx.fail('property', site, 'scalar=0 refused after the child was called', f'{call}: child called {child.calls} time(s) before the refusal',
+                             repro=PRE + src + 'assert False\n')
+            else:
+                # accepted: then every row must still carry the submitted polynomial's energy (nan is not it)
+                fin = np.isfinite(ss.record.energy)
+                if not fin.all():
+                    i = int(np.flatnonzero(~fin)[0])
+                    row = dict(zip(ss.variables, map(int, ss.record.sample[i])))
+                    ctx.fail('property', site, 'energy', f'scalar=0 accepted: row {row} reported with energy {ss.record.energy[i]!r}, the submitted problem gives '
+                             f'{prob.energy({v: F(row[v]) for v in prob.labels})}',
+                             repro=PRE + src + 'import warnings, math\nwarnings.simplefilter("ignore")\ntry:\n    ss = ' + call + '\nexcept ValueError:\n    raise SystemExit(0)\n'
+                             'assert all(math.isfinite(e) for e in ss.record.energy), list(ss.record.energy)\n')
+                    continue
+        if ss is not None:
+            if child.calls != 1:
+                ctx.fail('property', site, 'child calls', f'{call}: the child was called {child.calls} times', repro=PRE + src + 'assert False\n')
+            if not validate(ctx, ss, prob, site, f'scalar {mode} {prob.vartype}' + (' ignored_terms' if ign else ''), src, call, exact=prob.labels if n else None):
+                continue
+        if n > 0 or ss is None:
+            line = (f"pcomp {int(prob.spin)} {sc} 1 - ; " + ('|'.join('&'.join(lab(v) for v in k) for k in ign) or '-') + f' ; {prob.wire()}')
+            corr.add(line, got if ss is None else 'ok ' + _rows_exp(rows_of(ss)), site, src + call)
+
+
 def section_polyscale_zero(ctx):
     """PolyScaleComposite with scalar 0 (D73): refused, or every reported energy is the submitted polynomial's energy"""
     import warnings
@@ -1718,6 +2528,10 @@ def run(ctx):
     section_round7(ctx, r, corr)
     section_histories(ctx, r, corr)
     section_polyscale_zero(ctx)
+    section_histories_models(ctx, r, corr)
+    section_pcomp(ctx, r, corr)
+    section_tracking_and_index(ctx, r, corr)
+    section_hoc_initial_state_history(ctx, r, corr)
     got = run_driver('enumdriver', corr.lines)
     ctx.corr_lines += len(corr.lines)
     for i, ln in enumerate(corr.lines):
